@@ -17,8 +17,9 @@ repeated field; with no update mask the destination (or its writable fields) is 
 everything is replaced; a field named by the mask and not populated in the source is cleared.
 
 Masks are lists of paths: the five top-level paths, `x` (a path that is not a field of the message)
-and the two NESTED paths `fc` = `default_foreign_message.c`, `fd` = `default_foreign_message.d` (so masks
-can name a parent, its children, or both), with duplicates and order kept as given.  `flatOps` follows
+and the NESTED paths `fc` = `default_foreign_message.c`, `fd` = `default_foreign_message.d`, `fx` =
+`default_foreign_message.no_such_field` (so masks can name a parent, its children, both, or an unknown
+child), with duplicates and order kept as given.  `flatOps` follows
 `pkg/masks` (`FieldUpdater.Validate/Merge`, `pruneEmpty`, `isWritablePath`, `nestedMask`,
 `ResponseFilter.FilterClone`), `fieldmaskpb.{IsValid,Union}` and `fmutils` phase by phase, specialised to
 such masks.  (Masks in general depth are C05's subject.)
@@ -27,7 +28,7 @@ Integers are unbounded here; the harness keeps |values| far below 2^31 so `int32
 -/
 namespace ScVerif.C01
 
-inductive Field | a | s | c | f | r | x | fc | fd
+inductive Field | a | s | c | f | r | x | fc | fd | fx
   deriving DecidableEq, Repr
 
 abbrev Mask := List Field
@@ -54,6 +55,7 @@ def has (m : Msg) : Field → Bool
   | .x => false
   | .fc => match m.f with | some (c, _) => c ≠ 0 | none => false
   | .fd => match m.f with | some (_, d) => d ≠ 0 | none => false
+  | .fx => false
 
 /-- `protoreflect.Message.Clear` (`fc`/`fd`: on the nested message when it is present) -/
 def clear (m : Msg) : Field → Msg
@@ -65,6 +67,7 @@ def clear (m : Msg) : Field → Msg
   | .x => m
   | .fc => { m with f := m.f.map (fun p => (0, p.2)) }
   | .fd => { m with f := m.f.map (fun p => (p.1, 0)) }
+  | .fx => m
 
 /-- `proto.Merge` of a `ForeignMessage`: populated (non-zero) sub-fields of the source overwrite -/
 def mergeForeign (d s : Int × Int) : Int × Int :=
@@ -87,13 +90,13 @@ def fields : List Field := [.a, .s, .c, .f, .r]
 def plainFields : List Field := [.a, .s, .c, .r]
 
 /-- `FieldMask.IsValid(msg)` -/
-def isValid (m : Mask) : Bool := m.all (· ≠ .x)
+def isValid (m : Mask) : Bool := m.all (fun p => p ≠ .x && p ≠ .fx)
 
 /-- `normalizePaths`: sorted, duplicate free, and a path that lies inside another path of the list is
 dropped (`f.c` next to `f`). -/
 def normalize (m : Mask) : Mask :=
-  [Field.f, .fc, .fd, .a, .s, .c, .r, .x].filter
-    (fun p => m.contains p && !((p = .fc || p = .fd) && m.contains .f))
+  [Field.f, .fc, .fd, .fx, .a, .s, .c, .r, .x].filter
+    (fun p => m.contains p && !((p = .fc || p = .fd || p = .fx) && m.contains .f))
 
 /-- `fieldmaskpb.Union` -/
 def union (w : Mask) (more : Option Mask) : Mask := normalize (w ++ more.getD [])
@@ -106,7 +109,8 @@ inductive FSel | no | whole | part (c d : Bool)
 
 def fsel (mask : Mask) : FSel :=
   if mask.contains .f then .whole
-  else if mask.contains .fc || mask.contains .fd then .part (mask.contains .fc) (mask.contains .fd)
+  else if mask.contains .fc || mask.contains .fd || mask.contains .fx then
+    .part (mask.contains .fc) (mask.contains .fd)
   else .no
 
 /-- `fmutils.NestedMask.Filter` / `masks.filterMessage`: an empty mask keeps everything; a partly
@@ -148,7 +152,7 @@ def pruneEmpty (dst src : Msg) (mask : Mask) : Msg :=
 
 /-- `masks.isWritablePath`: the path is one of the writable paths or lies inside one of them -/
 def isWritablePath (w : Mask) (p : Field) : Bool :=
-  w.contains p || ((p = .fc || p = .fd) && w.contains .f)
+  w.contains p || ((p = .fc || p = .fd || p = .fx) && w.contains .f)
 
 /-- `FieldUpdater.Validate` -/
 def validate (u : Upd Mask) (_msg : Msg) : Option Code :=
